@@ -116,7 +116,9 @@ impl FrameReader for UdpFrameReader {
         let mut buf = Frame::new();
         tokio::select! {
             Some(f) = self.extra_frame.recv() => Ok(Some(f)),
-            _ = buf.recv_from(&self.socket) => {
+            ret = buf.recv_from(&self.socket) => {
+                // e.g. ECONNREFUSED after an ICMP error: that is not a datagram from the client
+                ret?;
                 buf.addr = Some(self.target.clone());
                 Ok(Some(buf))
             }
